@@ -231,6 +231,7 @@ def r3_verbatim(ctx, handlers):
         ctx.check(ok, 'R3', f.loc, f.qualname, f'importer-token-verbatim:{clsname}', f'{clsname} receives the raw cell text',
                   f'{clsname} receives `{src(calls[0].args[0]) if calls and calls[0].args else None}`')
     c04.r6_chords(ctx)
+    shared.plain_encodings_keep_verbatim_text(ctx, 'R3')
 
 
 def r4_joins(ctx):
